@@ -1819,7 +1819,10 @@ class Parallel(Logger):
                 # timeouts before any other dispatched job has completed and
                 # been added to `self._jobs` to be retrieved.
                 if timeout_control_job is None:
-                    timeout_control_job = next(iter(self._jobs_set), None)
+                    # The callback threads add to this set under the lock:
+                    # iterating it while its size changes would raise.
+                    with self._lock:
+                        timeout_control_job = next(iter(self._jobs_set), None)
 
                 # NB: it can be None if no job has been dispatched yet.
                 if timeout_control_job is not None:
